@@ -120,6 +120,9 @@ func stateDescriptionTextBegin(s *Scanner, c byte) *jerr.JApiError {
 }
 
 func stateDescriptionTextBracketsInner(s *Scanner, c byte) *jerr.JApiError {
+	if c == EOF {
+		return s.japiErrorUnexpectedChar("in the description", ")")
+	}
 	if IsNewLine(c) {
 		s.step = stateDescriptionTextBracketsInnerNewLine
 	}
@@ -130,6 +133,8 @@ func stateDescriptionTextBracketsInnerNewLine(s *Scanner, c byte) *jerr.JApiErro
 	switch c {
 	case caseWhitespace(c), caseNewLine(c):
 		return nil
+	case EOF:
+		return s.japiErrorUnexpectedChar("in the description", ")")
 	case ContextCloseSign:
 		s.found(TextEnd)
 		s.step = stateExpectKeyword
